@@ -37,6 +37,7 @@ class TextObligation:
     note: str
     path: int
     smt2: str
+    hint_smt2: str = ''     # the negated goal under the setup's candidate witness (see Harness.cover_hint)
 
 
 def to_smt2(pc: list, goal: Any, negate: bool = True) -> str:
@@ -291,6 +292,24 @@ def discharge(obligations: list, timeout_ms: int = 10000, jobs: int = 0, use_cvc
             status = {'unsat': 'proved', 'sat': 'refuted', 'unknown': 'unknown'}[st]
         results[idx] = Result(ob.name, status, backend, dt, model, ob.lineno, ob.path, ob.note, ob.kind, reason,
                               len(jobs_list[idx][1]))
+    # an undecided assertion whose setup gave a candidate witness: look for a counter-model *under the witness*
+    # (pc and hints and not goal).  sat is a genuine counter-model of the obligation; anything else leaves it undecided.
+    retry = []
+    for i, ob in enumerate(obligations):
+        if ob.kind == 'cover' or results[i] is None or results[i].status != 'unknown':
+            continue
+        if isinstance(ob, TextObligation):
+            text = ob.hint_smt2
+        else:
+            text = to_smt2(list(ob.pc) + list(ob.hints), ob.goal) if getattr(ob, 'hints', None) else ''
+        if text:
+            retry.append((i, text, min(timeout_ms, 20000), use_cvc5, False))
+    for idx, st, model, reason, backend, dt in (run(retry) if retry else []):
+        if st == 'sat':
+            ob, old = obligations[idx], results[idx]
+            results[idx] = Result(ob.name, 'refuted', backend, old.time_s + dt, model, ob.lineno, ob.path,
+                                  (ob.note + '; ' if ob.note else '') + 'counter-model found under the setup\'s candidate '
+                                  'witness', ob.kind, '', len(retry[0][1]))
     return results  # type: ignore
 
 
